@@ -360,14 +360,15 @@ Definition fs_rename (s : fstate) (po pn : str) : res unit * fstate :=
       match resolve (st_fs s) pn false with
       | WErr e => (Err e, s)
       | WFound kn nn =>
-          if key_eqb ko kn then (Ok tt, s)
+          (* Go's os.Rename refuses an existing directory as the new name
+             (EEXIST) before calling rename(2), unless it is the same file
+             under a different spelling *)
+          if is_dir nn then
+            if key_eqb ko kn && negb (str_eqb po pn) then (Ok tt, s) else (Err EEXIST, s)
+          else if key_eqb ko kn then (Ok tt, s)
           else if is_dir no then
-            if negb (is_dir nn) then (Err ENOTDIR, s)
-            else if key_prefixb ko kn then (Err EINVAL, s)
-            else if has_children (st_fs s) kn then (Err ENOTEMPTY, s)
-            else match kn with [] => (Err EBUSY, s) | _ => do_move kn end
-          else
-            if is_dir nn then (Err EISDIR, s) else do_move kn
+            if key_prefixb ko kn then (Err EINVAL, s) else (Err ENOTDIR, s)
+          else do_move kn
       | WMissing pk name slash =>
           let kn := pk ++ [name] in
           if is_dir no then
